@@ -83,3 +83,40 @@ def write_if_changed(path, text):
         open(path, "w").write(text)
         return True
     return False
+
+
+def mask_literals(s):
+    """replace the contents of string and char literals (and raw strings) by blanks of the same length, so
+    that brace matching is not confused by `'{'` or `"}"`; lifetimes are left alone"""
+    out = list(s)
+    i, n = 0, len(s)
+    while i < n:
+        c = s[i]
+        if c == 'r' and re.match(r'r#*"', s[i:i + 12]) and (i == 0 or not (s[i - 1].isalnum() or s[i - 1] == '_')):
+            m = re.match(r'r(#*)"', s[i:])
+            close = '"' + m.group(1)
+            j = s.find(close, i + len(m.group(0)))
+            j = n if j < 0 else j
+            for k in range(i + len(m.group(0)), j):
+                if out[k] != "\n":
+                    out[k] = " "
+            i = j + len(close)
+        elif c == '"':
+            j = i + 1
+            while j < n and s[j] != '"':
+                j += 2 if s[j] == "\\" else 1
+            for k in range(i + 1, min(j, n)):
+                if out[k] != "\n":
+                    out[k] = " "
+            i = j + 1
+        elif c == "'":
+            m = re.match(r"'(\\.[^']*|[^'\\])'", s[i:i + 12])
+            if m:
+                for k in range(i + 1, i + len(m.group(0)) - 1):
+                    out[k] = " "
+                i += len(m.group(0))
+            else:
+                i += 1
+        else:
+            i += 1
+    return "".join(out)
